@@ -23,6 +23,9 @@ type ForkRecorder struct {
 	Alloc   bool                                    // sample runtime allocation counters
 	Env     *avm.EVM
 	StepCnt uint64
+	// PreStep, when set, runs at the very start of every instruction callback, before the
+	// recorder makes its own copies (work counters sample here so that the recorder is not charged).
+	PreStep func()
 }
 
 func memInfo(l *Log, data []byte) (cp []byte, n int, h common.Hash) {
@@ -71,6 +74,9 @@ func (r *ForkRecorder) CaptureExit(output []byte, gasUsed uint64, err error) {
 }
 
 func (r *ForkRecorder) step(k Kind, pc uint64, op avm.OpCode, gas, cost uint64, scope *avm.ScopeContext, rData []byte, depth int, err error) {
+	if r.PreStep != nil {
+		r.PreStep()
+	}
 	r.StepCnt++
 	e := Event{K: k, PC: pc, Op: byte(op), Gas: gas, Cost: cost, Depth: depth, Err: ErrClass(err), ErrVal: err}
 	if err != nil {
